@@ -20,17 +20,21 @@
    return up to ZeroReads empty reads before the real end, up to MaxErr errors,
    and returns 0 forever once the stream is exhausted.
 
-   Named deviations of the pinned code (recorded in known_findings.json):
-     ExtractAddOverflow     LengthDelimited::extract computes lfl + len unchecked
+   Named deviations (recorded in known_findings.json):
      EncloseTruncates       LengthDelimited::enclose stores only the low lfl bytes
-                            of the payload length
-     FramerErrorPoisons     poll_next propagates an extract error with the question mark
-                            after idle.take(): the state stays Idle(None) and the next
-                            poll panics ("Inconsistent state"); unreachable with the
-                            built-in framers, which never return Err                  *)
+                            of the payload length (still in the code)
+   Repaired defects, kept as switches (TRUE = the repaired code, FALSE = the pinned code
+   of d4dae75; one control configuration each must still violate NoPanic with FALSE):
+     FixExtractOverflow     FALSE: LengthDelimited::extract computes lfl + len unchecked and
+                            panics; TRUE (commit 0af596c): checked_add, Err(InvalidData)
+     FixFramerError         FALSE: poll_next propagates an extract error with the question
+                            mark after idle.take(): the state stays Idle(None) and the next
+                            poll panics ("Inconsistent state"); TRUE (commit 3808013): the
+                            state is restored, a failed flag is set and the stream ends   *)
 EXTENDS Integers, Sequences, FiniteSets, TLC
 
-CONSTANTS Lfls,        \* length-field widths explored in round-trip mode (subset of 1..8)
+CONSTANTS FixExtractOverflow, FixFramerError,   \* BOOLEAN switches, see above
+          Lfls,        \* length-field widths explored in round-trip mode (subset of 1..8)
           HostLfls,    \* length-field widths explored against hostile input (0 only for the vacuity control)
           Endians,     \* subset of BOOLEAN, TRUE = big endian
           DelimKinds,  \* delimiter framers in round-trip mode, subset of {"nl", "c1", "R3", "a12", "a11"}
@@ -72,6 +76,7 @@ VARIABLES fr,      \* the framer  [k, lfl, be, dk, d]
           pos,     \* Buffer progress = Slice::begin
           eof,     \* read::State::eof
           st,      \* "wait" | "idle" | "reading" | "done" | "panic" | "poisoned" (Idle(None)) | "poisonpanic"
+                   \* | "errored" (framer error returned, failed flag set) | "faildone" (None because failed)
           out,     \* ghost: payloads of the Ok items poll_next returned (Err items are counted in errs)
           zr, errs, after   \* environment budgets used
 
@@ -145,7 +150,8 @@ ExtractLD(f, v) ==
   ELSE LET L == LenClass(f, v) IN
        CASE L.c = "small" -> (IF Len(v) < f.lfl + L.n THEN More ELSE FrameOf(f.lfl, L.n, 0))
          [] L.c = "huge"  -> More        \* buf.len() < lfl + len holds for every buffer that exists
-         [] OTHER         -> Panic       \* ExtractAddOverflow: lfl + len overflows usize
+         [] OTHER         -> (IF FixExtractOverflow THEN Error    \* checked_add failed: InvalidData
+                              ELSE Panic)                      \* lfl + len overflows usize
 
 \* AnyDelimited::extract: windows(m).position(== delimiter)
 ExtractDelim(f, v) ==
@@ -291,12 +297,25 @@ IdleExtractPanics ==
   /\ st' = "panic"
   /\ UNCHANGED <<wire, lazy, rbuf, pos, eof, out, zr, errs, after, cvars, wvars>>
 
-\* Idle, extract = Err(e): "this.framer.extract(inner)?" returns Some(Err) after idle.take(),
-\* the state is left as Idle(None)  (deviation FramerErrorPoisons)
+\* Idle, extract = Err(e).  Repaired code: Idle(Some(..)) is restored, failed is set and
+\* Some(Err) returned.  Pinned code: "this.framer.extract(inner)?" returns Some(Err) after
+\* idle.take(), the state is left as Idle(None).
 IdleExtractErr ==
   /\ st = "idle" /\ Ext.r = "err"
-  /\ st' = "poisoned"
+  /\ st' = (IF FixFramerError THEN "errored" ELSE "poisoned")
   /\ UNCHANGED <<wire, lazy, rbuf, pos, eof, out, zr, errs, after, cvars, wvars>>
+
+\* the next poll finds failed = true and returns None without touching reader or buffer
+PollErrored ==
+  /\ st = "errored"
+  /\ st' = "faildone"
+  /\ UNCHANGED <<wire, lazy, rbuf, pos, eof, out, zr, errs, after, cvars, wvars>>
+
+\* and so does every later poll
+PollAfterFailed ==
+  /\ st = "faildone" /\ after < AfterDone
+  /\ after' = after + 1
+  /\ UNCHANGED <<wire, lazy, rbuf, pos, eof, st, out, zr, errs, cvars, wvars>>
 
 \* the next poll finds Idle(None): idle.take().expect("Inconsistent state") panics
 PollPoisoned ==
@@ -348,7 +367,7 @@ PollAfterDone ==
 
 \* nothing left to do (lets TLC's deadlock check find every other state without a successor)
 Finish == /\ \/ st \in {"panic", "poisonpanic"}
-             \/ st = "done" /\ after = AfterDone
+             \/ st \in {"done", "faildone"} /\ after = AfterDone
           /\ UNCHANGED vars
 
 Next == \/ StartSend
@@ -359,6 +378,8 @@ Next == \/ StartSend
         \/ IdleNeedMore
         \/ IdleExtractPanics
         \/ IdleExtractErr
+        \/ PollErrored
+        \/ PollAfterFailed
         \/ PollPoisoned
         \/ \E n \in 1..ChunkMax : ReadData(n)
         \/ \E n \in 1..ChunkMax : ReadDataLazy(n)
@@ -399,13 +420,15 @@ PosInside == pos <= Len(rbuf)
 KnownOverflow == fr.k = "ld" /\ fr.lfl = 8 /\ Len(View) >= 8 /\ LenClass(fr, View).c = "wrap"
 NoPanic == st \notin {"panic", "poisonpanic"}
 NoPanicModuloKnown == st = "panic" => KnownOverflow      \* "poisonpanic" is the other named deviation
-BuiltinNeverPoisoned == st \in {"poisoned", "poisonpanic"} => fr.k = "lim"
+BuiltinNeverPoisoned == st \in {"poisoned", "poisonpanic"} => fr.k = "lim" \/ FixExtractOverflow
+\* a framer error is only possible for the user framer and for the 8-byte overflow
+ErrorOnlyWhenRefused == st \in {"errored", "faildone"} => fr.k = "lim" \/ (fr.k = "ld" /\ fr.lfl = 8)
 
 \* progress measure: every step of the machine strictly decreases it
-Rank(s) == CASE s = "idle" -> 2 [] s \in {"reading", "poisoned"} -> 1 [] OTHER -> 0
+Rank(s) == CASE s = "idle" -> 2 [] s \in {"reading", "poisoned", "errored"} -> 1 [] OTHER -> 0
 Measure == 3 * (3 * (Len(wire) + lazy) + 2 * (Len(rbuf) - pos) + (IF eof THEN 0 ELSE 1)
                 + (ZeroReads - zr) + (MaxErr - errs)) + Rank(st)
-Progress == [][ (st \in {"idle", "reading", "poisoned"} => Measure' < Measure) ]_rvars
+Progress == [][ (st \in {"idle", "reading", "poisoned", "errored"} => Measure' < Measure) ]_rvars
 RECURSIVE Unstarted(_)
 Unstarted(i) == IF i > Len(frames) THEN 0 ELSE 2 * Len(Enclose(fr, frames[i])) + 3 + Unstarted(i + 1)
 WMeasure == Unstarted(nsent + (IF wst = "writing" THEN 1 ELSE 0) + 1) + 2 * (Len(wbuf) - needle)
@@ -414,6 +437,6 @@ WProgress == [][ WMeasure' < WMeasure ]_wvars
 MeasureNonNeg == Measure >= 0 /\ WMeasure >= 0
 
 Finished == \/ st \in {"panic", "poisonpanic"}
-            \/ st = "done" /\ after = AfterDone
+            \/ st \in {"done", "faildone"} /\ after = AfterDone
 Terminates == <>Finished
 =============================================================================
